@@ -114,7 +114,7 @@ def generic_point(env, leaf, piece, P, nrows):
     L = env.L
     vals = [_aff_rows(a, P, nrows) for a in leaf.affs]
     if leaf.kind == "Interval":
-        return vals[0] if piece == "lb" else vals[1]
+        return (vals[0] if piece == "lb" else vals[1]), {}
     if leaf.kind in ("Circle", "Sphere"):
         c, r = vals
         w = env.tensor("w", (nrows, c.shape[1]))
@@ -122,7 +122,7 @@ def generic_point(env, leaf, piece, P, nrows):
         d = c.shape[1]
         for i in range(nrows):
             env.assume(L.eq(sum(x * x for x in we[i * d:(i + 1) * d]), 1))
-        return c + r * w
+        return c + r * w, {}
     o, c1, c2 = vals
     if leaf.kind == "Parallelogram":
         corners = [o, c1, c1 + c2 - o, c2]
@@ -131,9 +131,10 @@ def generic_point(env, leaf, piece, P, nrows):
     i = int(piece[1:])
     a, b = corners[i], corners[(i + 1) % len(corners)]
     t = env.tensor("te", (nrows, 1))
-    for x in SH.elems(env, t):
+    te = SH.elems(env, t)
+    for x in te:
         env.assume(L.And(L.ge(x, 0), L.le(x, 1)))
-    return a + t * (b - a)
+    return a + t * (b - a), dict(t=te, edge=i, m=len(corners))
 
 
 def _orientation(env, node, rows, orient):
@@ -264,7 +265,7 @@ def generic_case(expr, leaf_idx, piece, k=0, orient=None, dep=None, **kw):
         _normalise(env, expr, node, rows)
         _orientation(env, node, rows, orient)
         leaf = node.leaves()[leaf_idx]
-        pt = generic_point(env, leaf, piece, P, nrows)
+        pt, aux = generic_point(env, leaf, piece, P, nrows)
         d = pt.shape[1]
         el = SH.elems(env, pt)
         prow = [el[i * d:(i + 1) * d] for i in range(nrows)]
@@ -274,7 +275,7 @@ def generic_case(expr, leaf_idx, piece, k=0, orient=None, dep=None, **kw):
                 env.assume(N.selected(sh.oset, p, prm, L, TAU))
         X = sh.dom.space
         nrm = sh.dom.boundary.normal(Points(pt.clone(), X), P)
-        return dict(nrm=nrm, p=prow, sh=sh, prms=prms, n=nrows, leaf=leaf.sh)
+        return dict(nrm=nrm, p=prow, sh=sh, prms=prms, n=nrows, leaf=leaf.sh, aux=aux)
 
     def goals(o, L, env):
         sh = o["sh"]
@@ -286,8 +287,19 @@ def generic_case(expr, leaf_idx, piece, k=0, orient=None, dep=None, **kw):
         for i, (p, nu, prm) in enumerate(zip(o["p"], nrm, o["prms"])):
             yield "generic_point_on_piece[row%d]" % i, N.on_some_piece(o["leaf"].oset, p, prm, L)
             yield "unit[row%d]" % i, N.unit(nu, L, _tol(L))
-            for cn, f in N.claims(sh.oset, p, nu, prm, L, TAU, _tol(L)):
-                yield "outward:%s[row%d]" % (cn, i), f
+            aux = o["aux"]
+            forms = N.edge_point_premises(aux["m"], aux["edge"], aux["t"][i], L, TAU) if "t" in aux else {}
+            for cn, lf, conds, prem, concl in N.claims3(sh.oset, p, nu, prm, L, TAU, _tol(L)):
+                base = cn.split(".")[-1]
+                if lf is o["leaf"].oset and base in forms:
+                    # the premise (a polynomial predicate of p) is replaced by its normal form in the edge parameter;
+                    # the equivalence is proved, not assumed
+                    S = forms[base]
+                    yield "premise_form:%s[row%d]" % (cn, i), L.Iff(prem, S)
+                    if S is not False:
+                        yield "outward:%s[row%d]" % (cn, i), L.Implies(L.And(*(conds + [S])), concl)
+                else:
+                    yield "outward:%s[row%d]" % (cn, i), L.Implies(L.And(*(conds + [prem])), concl)
 
     opts = dict(max_paths=64, max_decisions=64, max_forks_per_site=8, split=("abs", "where"))
     opts.update(kw)
